@@ -24,8 +24,9 @@ ASSUMPTIONS = [
     "a hang is a call exceeding 1e7 PyXAB function entries (largest legitimate call observed is reported)",
     "rewards are floats of the listed families, incl. magnitudes up to 1e307; not every finite float",
 ]
-FLOOR = {"pulls_checked": {"quick": 20000, "thorough": 500000}, "last_checked": {"quick": 300, "thorough": 8000},
-         "intermediate_stops_probed": {"quick": 15000, "thorough": 300000}}
+FLOOR = {"pulls_checked": {"quick": 20000, "thorough": 160000},
+         "last_checked": {"quick": 250, "thorough": 2000},
+         "intermediate_stops_probed": {"quick": 10000, "thorough": 80000}}
 WALL = {"quick": 1500, "thorough": 5 * 3600}
 
 
